@@ -877,6 +877,8 @@ class Engine:
             fn = z3.Function(fresh_name(name + '.at'), *([z3.IntSort()] * k), ValSort)
             a = Arr(ident, shape, VAL, kind)
             a.lead = k
+            if len(T) > 4:
+                a.elem_kind = T[4]            # what the opaque elements are ('table': pandas DataFrames)
             tlen = shape[-1] if has_t else None
             self.st.heap[ident] = (lambda *idx, fn=fn, tlen=tlen: _opq(fn(*idx), tlen))
             return a
